@@ -260,6 +260,12 @@ func cmdEntropy(args []string) int {
 			add(codec, c+r, []string{"text", "skew", "alpha:64"}[(ci+ri)%3], []int{0, 3, 8}[(ci+ri)%3])
 		}
 	}
+	if *thorough {
+		// the bit-wise coders (CM, TPAQ, TPAQX share one arithmetic coder) split blocks of 64 MiB and more into 8 chunks
+		add("CM", 64<<20+5, "text", 0)
+		add("CM", 64<<20, "skew", 3)
+		add("FPAQ", 64<<20+13, "text", 5)
+	}
 	// non-stationary data: the statistics of a part of a chunk differ from those of the whole chunk, for every quarter of the
 	// internal chunk sizes (16 KiB, 32 KiB) and across chunk boundaries
 	for ci, codec := range entropyNames {
